@@ -275,6 +275,31 @@ def smart_pointer_rule(rep, funcs):
 NULL_ACCEPTED = {}
 
 
+def unsigned_reader_rule(rep, funcs):
+    """UNSIGNED-READER: a function of the analysed units that extracts an unsigned int from a stream built on a token ('is >> res') tests
+    the text for a minus sign first (the extraction accepts '-1' and wraps to 4294967295: an interval count, a size) and tests that the
+    whole token was consumed (eof())."""
+    n_ = 0
+    for f in funcs:
+        if f.parent is not None:
+            continue
+        ext = [s_ for s_, n in f.stmts.items() if n["k"] == "CXXOperatorCallExpr" and n.get("op") == ">>" and len(n.get("args", [])) == 2
+               and re.match(r"^(const )?unsigned int$", (f.stmts.get(f.strip(n["args"][1])) or {}).get("declType") or "")]
+        if not ext:
+            continue
+        n_ += 1
+        minus = any(n["k"] == "CharacterLiteral" and n.get("value") == ord("-") for g in [f] + [x for x in funcs if x.parent == f.id and x.unit == f.unit] for n in g.stmts.values())
+        eof = any(n["k"] == "CXXMemberCallExpr" and (n.get("callee") or "").endswith("::eof") for n in f.stmts.values())
+        if minus and eof:
+            rep.ok("%s rejects a minus sign and a partly read token before it returns an unsigned int" % f.qname.split("(")[0])
+        else:
+            rep.fail("UNSIGNED-READER@%s" % f.qname.split("(")[0], "%s: %s extracts an unsigned int from the text of a token %s: '-1' is accepted and wraps to "
+                     "4294967295 (an interval count of @Times: gigabytes of memory and minutes of run time for a one-line input)"
+                     % (rel(f.short_loc(ext[0])), f.qname.split("(")[0], "without testing it for a minus sign" if not minus else "without testing that it was read entirely"))
+    rep.count("functions extracting an unsigned int from a token", n_)
+    rep.floor("functions extracting an unsigned int from a token", 1)
+
+
 def main_catches_rule(rep):
     """MAIN-CATCHES: errors of the input file are reported by exceptions; in the compiled configuration main calls MTestMain::execute inside a
     try block with handlers, so that an invalid file ends in a failure status and not in std::terminate (SIGABRT)."""
@@ -337,6 +362,7 @@ def run(tier):
     borrow.rule(rep, funcs, lambda t: bool(ITER.search(t or "")), rel, 0)
     smart_pointer_rule(rep, funcs)
     main_catches_rule(rep)
+    unsigned_reader_rule(rep, funcs)
     import progress
     progress.rule(rep, funcs, rel, {})
     more = [u for u in units_under("mtest/src") if u not in units] if tier == "thorough" else []
